@@ -38,6 +38,9 @@ NoCall == [ev |-> "None"]
 SizeAware == {"sink", "valign", "pack", "nspos"}
 BKs       == {"bk", "bk0", "bk1", "bk2", "bk3"}
 
+\* NodeSpacing in 1/Q units: c.ns / c.nsd coordinate units (nsd a power of two <= Q, so the quotient is exact)
+NSq(c) == (Q * c.ns) \div c.nsd
+
 \* tolerance in 1/Q units: 0 whenever every logged coordinate is exact on the grid
 Tol(r) == IF r.exact = 1 THEN 0 ELSE 2
 
@@ -122,6 +125,7 @@ C03_NonTrivial(c, r, v) == \E m \in v.roots : Cardinality(YsOf(c, r, v, m)) >= 2
 \* LayerSpacing > 0: with LayerSpacing 0 and zero-height nodes consecutive bands coincide (C03 carves the same case out) and
 \* "the nodes of one band" can no longer be read off the drawing
 C04_Applies(c, r, v) == v.ok /\ c.p4 \in SizeAware /\ c.ls > 0
+                        /\ (c.p4 = "nspos" => c.nsd = 1)      \* "the NetworkSimplex positioner works on an integer grid" (statement)
 Overlap(a, b) == a.x < b.x + b.w /\ b.x < a.x + a.w /\ a.y < b.y + b.h /\ b.y < a.y + a.h
 C04_Fail(c, r, v) ==
     If(r.fin = 1 /\ \A k \in DOMAIN r.nodes : r.nodes[k].x >= 0 /\ r.nodes[k].y >= 0, "FiniteNonNeg")
@@ -129,11 +133,11 @@ C04_Fail(c, r, v) ==
     \cup If(\A i, j \in 1..c.n : i < j =>
                LET a == Nd(r, v, i) b == Nd(r, v, j) IN
                (a.y = b.y /\ v.comp[i] = v.comp[j]) =>
-                   (a.x + a.w + Q * c.ns <= b.x + Tol(r) \/ b.x + b.w + Q * c.ns <= a.x + Tol(r)), "BandSpacing")
+                   (a.x + a.w + NSq(c) <= b.x + Tol(r) \/ b.x + b.w + NSq(c) <= a.x + Tol(r)), "BandSpacing")
     \cup If(\A m1, m2 \in v.roots : m1 < m2 =>
                LET lo(m) == Min({Nd(r, v, i).x : i \in CompNodes(c, v, m)})
                    hi(m) == Max({Nd(r, v, i).x + Nd(r, v, i).w : i \in CompNodes(c, v, m)})
-               IN hi(m1) + Q * c.ns <= lo(m2) + Tol(r) \/ hi(m2) + Q * c.ns <= lo(m1) + Tol(r), "ComponentSpacing")
+               IN hi(m1) + NSq(c) <= lo(m2) + Tol(r) \/ hi(m2) + NSq(c) <= lo(m1) + Tol(r), "ComponentSpacing")
 C04_NonTrivial(c, r, v) ==
     \/ Cardinality(v.roots) >= 2
     \/ \E i, j \in 1..c.n : i < j /\ Nd(r, v, i).y = Nd(r, v, j).y
@@ -229,7 +233,7 @@ RightOf(r, y) == Max({r.nodes[k].x + r.nodes[k].w : k \in BandK(r, y)})
 C16_Fail(c, r, v) ==
     LET ws == [k \in DOMAIN r.nodes |-> r.nodes[k].w] IN
     If(\A y \in AllYs(r) : Abs(RightOf(r, y) - LeftOf(r, y)
-                               - (SumSet(ws, BandK(r, y)) + (Cardinality(BandK(r, y)) - 1) * Q * c.ns)) <= Tol(r), "BandExtent")
+                               - (SumSet(ws, BandK(r, y)) + (Cardinality(BandK(r, y)) - 1) * NSq(c))) <= Tol(r), "BandExtent")
     \cup If(Abs(Min({r.nodes[k].x : k \in DOMAIN r.nodes})) <= Tol(r), "LeftmostAtZero")
     \cup If(c.p4 = "valign" => \A y1, y2 \in AllYs(r) :
                Abs(LeftOf(r, y1) + RightOf(r, y1) - LeftOf(r, y2) - RightOf(r, y2)) <= 2 * Tol(r), "MidpointsCoincide")
@@ -403,7 +407,7 @@ C09_Fail(c, r, v, g) ==
               \A m1, m2 \in v.roots : m1 < m2 =>
                LET lo(m) == Min({Nd(r, v, i).x : i \in CompNodes(c, v, m)})
                    hi(m) == Max({Nd(r, v, i).x + Nd(r, v, i).w : i \in CompNodes(c, v, m)})
-               IN hi(m1) + Q * c.ns <= lo(m2) \/ hi(m2) + Q * c.ns <= lo(m1), "SideBySide")
+               IN hi(m1) + NSq(c) <= lo(m2) \/ hi(m2) + NSq(c) <= lo(m1), "SideBySide")
 C09_NonTrivial(c, r, v, g) == Cardinality(v.roots) >= 2 /\ c.n >= 4
 
 -----------------------------------------------------------------------------
